@@ -201,3 +201,162 @@ def marking_to_market_post(ob):
 marking_to_market_post.kind = "marking_to_market_post"
 
 TABLE = {f.kind: f for f in (marking_to_market_post, step_insolvent, null_action_in_space, make_trades_raises, transact_nlv_delta, holdings_values_liquidation, accrued_interest_query)}
+
+
+def _dt(sec):
+    from datetime import datetime, timedelta
+    return datetime(2000, 1, 1) + timedelta(seconds=float(sec))
+
+
+def partition_slot(ob):
+    """C04/C08: latent iff stamped within `latency` seconds after the previous timestep; stored under the first timestep >= stamp"""
+    from tradingenv.transmitter import Transmitter
+    from shell.common import Tick
+    m = model_floats(ob["model"])
+    if "t_slot" not in m:
+        return {"reproduced": False, "reason": "model has no slot values"}
+    grid = [m["t_slot"]]
+    if m.get("slot_index", 0) > 0:
+        grid.insert(0, m["t_prev"])
+    if m.get("n", 1) > m.get("slot_index", 0) + 1 and m.get("t_next", 0) > m["t_slot"]:
+        grid.append(m["t_next"])
+    tr = Transmitter([_dt(x) for x in grid])
+    ev = Tick(_dt(m["event_time"]), 0)
+    tr.add_events([ev])
+    tr._create_partitions(latency=m["latency"])
+    lat = {t: list(v) for t, v in tr._partition_latent.items() if v}
+    non = {t: list(v) for t, v in tr._partition_nonlatent.items() if v}
+    et = _dt(m["event_time"])
+    later = [g for g in tr.timesteps if g >= et]
+    want_slot = later[0] if later else None
+    prev = [g for g in tr.timesteps if g < et]
+    want_latent = bool(prev) and (et - prev[-1]).total_seconds() <= m["latency"]
+    got = [(t, "latent") for t in lat] + [(t, "nonlatent") for t in non]
+    ok = (want_slot is None and not got) or (len(got) == 1 and got[0][0] == want_slot and (got[0][1] == "latent") == want_latent)
+    return {"reproduced": not ok, "clause": "stored once under the first timestep >= stamp; latent iff stamp - previous timestep <= latency",
+            "grid": [str(g) for g in tr.timesteps], "event": str(et), "latency": m["latency"], "stored": [(str(t), w) for t, w in got],
+            "expected": [str(want_slot), "latent" if want_latent else "nonlatent"]}
+
+
+partition_slot.kind = "partition_slot"
+
+
+def accrued_interest_formula(ob):
+    """C06: the amount accrued is the stated compounding formula"""
+    from datetime import timedelta
+    from .runtime import Monitor
+    m = model_floats(ob["model"])
+    rate = (m.get("rate_bid", 0.0) + m.get("rate_ask", 0.0)) / 2
+    markup = m.get("markup", 0.0)
+    if not (-0.2 < rate < 0.24) or not (0 <= markup < 1 + rate - 0.01):
+        rate, markup = 0.05, 0.01          # the model's rate book is outside what Rate.verify accepts: use a sane one, keep cash and times
+    mm = {"cash0": m.get("cash0", 100.0) * 1000, "markup": markup, "rate": rate}
+    b, c = broker_from_model(mm)
+    now = T0 + timedelta(seconds=float(m.get("now", 0.0)))
+    b._last_accrual = T0 + timedelta(seconds=float(m["last_accrual"])) if "last_accrual" in m else None
+    if b._last_accrual is None or (now - b._last_accrual).total_seconds() < 86400 * 10:
+        b._last_accrual = now - timedelta(days=200)
+    b._last_growth = (None, 0.) if hasattr(b, "_last_growth") else None
+    mon = Monitor()
+    mon.install()
+    try:
+        # two accruals of equal length around a sign flip of the cash balance, then the model's own call
+        b.accrued_interest(b._last_accrual + (now - b._last_accrual) / 2, accrue=True)
+        b._holdings_quantity[b.base_currency] *= -1
+        b.accrued_interest(now, accrue=True)
+        b.accrued_interest(now + timedelta(hours=6), accrue=True)
+    except Exception as ex:
+        mon.flag("raised", {"error": "%s: %s" % (type(ex).__name__, ex)})
+    finally:
+        mon.uninstall()
+    return {"reproduced": bool(mon.viol), "construction": "state injection (A12) + three accruals (equal length around a sign flip, then a sub-day one); "
+            "the contract's formula evaluated concretely at each call", "violated_clauses": mon.viol[:3]}
+
+
+accrued_interest_formula.kind = "accrued_interest_formula"
+
+
+def exchange_event(ob):
+    """C14: last quote wins / dead stays dead / a key addresses the book of its static hash"""
+    import math
+    from tradingenv.events import EventContractDiscontinued
+    from tradingenv.contracts import ETF, ES, FutureChain, AbstractContract
+    m = model_floats(ob["model"])
+    ex = Exchange()
+    nan = float("nan")
+    chain = FutureChain(ES, "2018-03", "2019-12")
+    AbstractContract.now = chain.contracts[2].last_trading_date - timedelta(days=20)
+    key = ETF("X") if m.get("key_is_static", True) else chain
+    static = key.static_hashing()
+    viol = []
+    if m.get("book_exists") and "old_bid" in m:
+        ex.process_EventNBBO(EventNBBO(T0, static, nan if m.get("old_bid_nan") else m["old_bid"], nan if m.get("old_ask_nan") else m.get("old_ask", m["old_bid"])))
+    if m.get("alive") is False:
+        ex.process_EventContractDiscontinued(EventContractDiscontinued(T0, static))
+    hist0 = len(ex._books[static].history["bid_price"]) if static in ex._books else 0
+    if "ev_bid" in m:
+        b, a = (nan if m.get("ev_bid_nan") else m["ev_bid"]), (nan if m.get("ev_ask_nan") else m["ev_ask"])
+        ex.process_EventNBBO(EventNBBO(T0 + timedelta(seconds=1), key, b, a))
+        bk = ex._books.get(static)
+        same = lambda x, y: (x != x and y != y) or x == y
+        if m.get("alive", True):
+            if bk is None or not (same(bk.bid_price, b) and same(bk.ask_price, a)) or len(bk.history["bid_price"]) != hist0 + 1:
+                viol.append(("last_quote_wins_in_the_book_of_the_static_hash", {"book": None if bk is None else [bk.bid_price, bk.ask_price]}))
+        elif bk is not None and (bk.is_alive or not (bk.bid_price != bk.bid_price)):
+            viol.append(("dead_stays_dead", {"book": [bk.bid_price, bk.ask_price, bk.is_alive]}))
+        if len(ex._books) > (1 if True else 0) and any(k is not static and k != static for k in ex._books):
+            viol.append(("no_other_book_created", {"keys": [str(k) for k in ex._books]}))
+        if key is chain and m.get("alive", True) and b == b:
+            # a chain key addresses the book of its lead contract: after the roll that contract still reports the quote it received
+            AbstractContract.now = static.last_trading_date + timedelta(days=1)
+            bk2 = ex[static]
+            if not (same(bk2.bid_price, b) and same(bk2.ask_price, a)):
+                viol.append(("quote_sent_through_a_chain_key_stays_with_its_lead_contract", {"contract": str(static), "book_after_roll": [bk2.bid_price, bk2.ask_price]}))
+    else:
+        ex.process_EventContractDiscontinued(EventContractDiscontinued(T0 + timedelta(seconds=1), key))
+        bk = ex._books.get(static)
+        if bk is None or bk.is_alive or not (bk.bid_price != bk.bid_price):
+            viol.append(("discontinued_book_is_dead_and_priceless", {"book": None if bk is None else [bk.bid_price, bk.is_alive]}))
+        ex.process_EventNBBO(EventNBBO(T0 + timedelta(seconds=2), key, 5.0, 6.0))
+        bk = ex._books.get(static)
+        if bk is None or bk.is_alive or not (bk.bid_price != bk.bid_price):
+            viol.append(("dead_ignores_later_quotes", {"book": None if bk is None else [bk.bid_price, bk.is_alive]}))
+    return {"reproduced": bool(viol), "construction": "fresh Exchange driven through its public event API from the model's book state",
+            "violated_clauses": viol, "key": str(key), "static_hash": str(static)}
+
+
+exchange_event.kind = "exchange_event"
+
+
+def trade_init(ob):
+    """C12/C13: Trade.__init__ rejects exactly NaN bid/ask/quantity, zero quantity and cash; otherwise its fields are the stated ones"""
+    import math
+    m = model_floats(ob["model"])
+    nan = float("nan")
+    c = Cash() if m.get("is_cash") else VContract("VC", m.get("mult", 1.0), 0.0, m.get("cr", 1.0))
+    q = nan if m.get("dq_nan") else m.get("dq", 1.0)
+    b = nan if m.get("bid_nan") else m.get("bid", 1.0)
+    a = nan if m.get("ask_nan") else m.get("ask", 1.0)
+    fees = BrokerFees(fixed=m.get("fee_fixed", 0.0), proportional=m.get("fee_prop", 0.0))
+    must_raise = (q != q) or (b != b) or (a != a) or q == 0 or m.get("is_cash", False)
+    try:
+        t = Trade(T0, c, q, b, a, fees)
+        raised = None
+    except ValueError as ex:
+        raised, t = str(ex), None
+    viol = []
+    if must_raise != (raised is not None):
+        viol.append(("raises_iff_unusable_inputs", {"must_raise": must_raise, "raised": raised}))
+    if t is not None and not must_raise:
+        acq = a if q > 0 else b
+        want = {"acq_price": acq, "notional": acq * q * c.multiplier, "cost_of_cash": acq * q * c.multiplier * c.cash_requirement,
+                "cost_of_commissions": fees.fixed + abs(acq * q * c.multiplier) * fees.proportional, "cost_of_spread": abs(q) * c.multiplier * (a - b)}
+        for f_, w in want.items():
+            if not S.eq(getattr(t, f_), w):
+                viol.append(("field[%s]" % f_, {"got": getattr(t, f_), "expected": w}))
+    return {"reproduced": bool(viol), "violated_clauses": viol[:3], "inputs": {"quantity": q, "bid": b, "ask": a, "cash": bool(m.get("is_cash"))}}
+
+
+trade_init.kind = "trade_init"
+
+TABLE.update({f.kind: f for f in (partition_slot, accrued_interest_formula, exchange_event, trade_init)})
